@@ -223,6 +223,9 @@ def ask_sized(model, lines, limit=40000):
     return out
 
 
+_FOREIGN = {'n': 0, 'prev': None}     # events that reached a subscriber registered with ANOTHER tracker object
+
+
 def run_impl(h):
     """Runs the history on pyais.  -> list of per-operation observations (dicts)."""
     e = env()
@@ -235,7 +238,8 @@ def run_impl(h):
     else:
         ttl = ttl_q // q if ttl_q % q == 0 else ttl_q / q
     out = []
-    cur = {'events': [], 'deliv': []}
+    cur = {'events': [], 'deliv': [], 'live': True}
+    foreign_before = _FOREIGN['n']
 
     def snap(tr):
         if tr is None:          # an event delivered without a track (never for a correct tracker): keep it observable
@@ -250,6 +254,10 @@ def run_impl(h):
             letter = {v: k for k, v in MON.items()}.get(cb)
 
             def f(track, cb=cb, letter=letter):
+                if not cur['live']:
+                    # this subscriber belongs to a tracker of an EARLIER history: a correct tracker never reaches it
+                    _FOREIGN['n'] += 1
+                    return
                 s = snap(track)
                 cur['deliv'].append((cb, s))
                 if letter:
@@ -293,6 +301,11 @@ def run_impl(h):
             rec['tracks'] = [snap(t) for t in tracker.tracks]
             rec['oldest'] = _q(tracker.oldest_timestamp, base, q)
             out.append(rec)
+    cur['live'] = False
+    if out:
+        out[-1]['foreign'] = _FOREIGN['n'] - foreign_before     # deliveries to subscribers of other trackers during this history
+        out[-1]['previous'] = _FOREIGN.get('prev')
+    _FOREIGN['prev'] = h
     return out
 
 
@@ -712,6 +725,14 @@ def check_histories(ctx, prop, hs, queries_only_for=('C14',), sample_every=401, 
                     rep.count(ft)
             rep.count('ops', len(h['ops']))
             bad = evaluate(h, a, lines, index, replies)
+            if prop == 'C15' and a and a[-1].get('foreign'):
+                # C15: "the events delivered for one MMSI" are those of ITS tracker; subscribers of a tracker that is no
+                # longer in use were reached by this tracker's events (state shared between tracker objects)
+                fsig = {'entry': 'register_callback', 'mode': mode(h), 'component': 'subscribers',
+                        'kind': 'delivered-to-another-tracker'}
+                rep.violation(fsig, f'{a[-1]["foreign"]} events of this tracker were delivered to callbacks registered with a '
+                                    f'different AISTracker object (created earlier in the same process) -- history: ' + short(h),
+                              {'history': h, 'previous': a[-1].get('previous'), 'step': len(h['ops']) - 1, 'signature': fsig})
             model = parse_model(mr, h)
             diff = compare(h, a, model, with_cache=prop in ('C13', 'C14'))
             own = [b for b in bad if b[0] == prop]
@@ -1041,7 +1062,12 @@ def replay_common(ctx, prop, data):
     h = data['history']
     model = ctx.model or vlib.FastModel()
     try:
+        if data.get('previous'):
+            run_impl(data['previous'])          # the earlier tracker object whose subscribers must stay untouched
         impl = run_impl(h)
+        if (data.get('signature') or {}).get('kind') == 'delivered-to-another-tracker':
+            return ('events of this tracker reach callbacks registered with another AISTracker object'
+                    if impl and impl[-1].get('foreign') else None)
         lines, index = oracle_lines(h, impl)
         replies = ask_sized(model, lines)
         bad = [b for b in evaluate(h, impl, lines, index, replies) if b[0] == prop]
